@@ -630,7 +630,142 @@ def part_req(ck, classes):
     VERS = saveV
     ck.part('req_multidigit', comparators=len(md), versions=len(mdv), evaluations=me)
     total += me
+
+    # ---- the pre-release a requirement names, over the SemVer identifier alphabet [0-9A-Za-z-] ----
+    global PI_PRES, PI_TRIPLES, PI_VERS
+    PI_PRES = prerelease_texts(ck.q(False, True))
+    PI_TRIPLES = [(1, 2, 3), (0, 0, 3)]
+    PI_VERS = [pi_versions(t) for t in PI_TRIPLES]
+    ck.require(len(set(PI_PRES)) == len(PI_PRES), 'pre-release texts not distinct')
+    st = dict.fromkeys(('requirements', 'evaluations', 'skipped_unspecified', 'expected_accept', 'expected_reject', 'same_but_for_case_points',
+                        'same_but_for_case_expected_accept', 'bare_requirements_ending_in_x_identifier'), 0)
+    pi_jobs = [('single', ti, k) for ti in range(len(PI_TRIPLES)) for k in range(len(PI_PRES))] + [('pair', 0, k) for k in range(len(PI_PRES))]
+    for job, s, diffs in pmap(pi_worker, pi_jobs, chunksize=2):
+        for k2, n in s.items():
+            st[k2] += n
+        for text, v, got, e, err in diffs:
+            if err:
+                ck.violation('C20:req:exception', '%r: %s' % (text, err), {'kind': 'req', 'req': text, 'version': v})
+                continue
+            cs = ref_parse_req(text)
+            key = classify_xpre(cs, v, got) or classify_req(cs, v, got)
+            viol_calls[key] = viol_calls.get(key, 0) + 1
+            if viol_calls[key] <= 40:
+                ck.violation(key, 'cargo_parse(%r)(%r) = %r, Cargo rule says %r' % (text, v, got, e),
+                             {'kind': 'req', 'req': text, 'version': v, 'observed': got, 'expected': e})
+            elif any(kf['key'] == key and kf.get('status') == 'known' for kf in ck.known):
+                ck.add('known_finding_points_beyond_listing_cap')
+            else:
+                ck.add('violation_points_beyond_listing_cap')
+                ck.n_viol += 1
+    upper = sum(1 for p in PI_PRES if p != p.lower())
+    hyph = sum(1 for p in PI_PRES if '-' in p)
+    classes.add(('req-pre-ident', 'accept', st['expected_accept'] > 0))
+    classes.add(('req-pre-ident', 'reject', st['expected_reject'] > 0))
+    ck.part('req_prerelease_identifiers', prerelease_texts=len(PI_PRES), with_upper_case=upper, with_hyphen=hyph,
+            triples=['%d.%d.%d' % t for t in PI_TRIPLES], operators=len(OPSP), versions_per_triple=len(PI_VERS[0]),
+            range_pairs=2 * len(PI_PRES) ** 2, **st)
+    ck.sample({'req': '>=1.2.3-RC, <1.2.3-rc', 'accepted': [v for v in PI_VERS[0] if expected(ref_parse_req('>=1.2.3-RC, <1.2.3-rc'), v)][:8]})
+    ck.require(upper >= 10 and hyph >= 3, 'upper-case / hyphenated pre-release identifiers not generated')
+    ck.require(st['same_but_for_case_points'] > 500 and st['same_but_for_case_expected_accept'] > 50 and
+               st['expected_accept'] > 5000 and st['expected_reject'] > 5000, 'pre-release identifier family degenerate')
+    total += st['evaluations']
+    total_skipped += st['skipped_unspecified']
     return total, total_skipped
+
+
+# ---- the pre-release named by a requirement ------------------------------------------------------------
+# A comparator I.J.K-<pre> carries a SemVer pre-release: dot-separated identifiers over [0-9A-Za-z-], compared as written
+# (numeric ones numerically, the others in ASCII order, so RC < Z < alpha < rc).  The grid above names seven lower-case
+# pre-releases; here every operator x every pre-release of a set that covers the identifier alphabet (numeric, upper, lower and
+# mixed case, hyphens, a digit-leading alphanumeric, the letters x / X which are wildcards only in place of a *component*),
+# alone and as the first / second of two identifiers, x every version of the same major.minor.patch carrying a pre-release of
+# the same set (+ the neighbouring releases, a pre-release of the next patch, build metadata), and every range
+# ">=T-a, <T-b" / ">T-a, <=T-b".
+K_XPRE = 'C20:req:prerelease-identifier-x-read-as-wildcard'    # bare "1.0.0-beta.x": the trailing identifier x taken for a wildcard component
+PI_PRES = []
+PI_TRIPLES = []
+PI_VERS = []
+PI_RANGES = [('>=', '<'), ('>', '<=')]
+
+
+def prerelease_texts(thorough):
+    one = ['0', '1', '2', '10', 'A', 'RC', 'Z', 'a', 'rc', 'z', 'alpha', 'Beta', 'beta', 'Rc', 'rC', '1a', '1A', 'a1', 'a-b', 'A-b', '-', 'rc-1',
+           'x', 'X']
+    first = ['1', 'RC', 'rc', 'x'] + (['alpha', 'Beta', 'X', 'a-b'] if thorough else [])
+    second = ['1', '10', 'RC', 'rc', 'x', 'X'] + (['0', '2', 'a-b', 'Rc'] if thorough else [])
+    return one + [a + '.' + b for a in first for b in second]
+
+
+def pi_versions(t):
+    i, j, k = t
+    core = '%d.%d.%d' % t
+    nxt = '%d.%d.%d' % (i, j, k + 1)
+    out = [core + '-' + p for p in PI_PRES]
+    out += [core, nxt, '%d.%d.%d' % (i, j, k - 1), '%d.%d.0' % (i, j + 1), '%d.0.0' % (i + 1), '0.0.0',
+            nxt + '-RC', nxt + '-rc', '%d.%d.%d-RC' % (i, j, k - 1), core + '-RC+B.1', core + '-rc+b.1', core + '+RC']
+    return out
+
+
+def classify_xpre(cs, vtext, got):
+    """The observation is what results when a bare comparator whose last pre-release identifier is x / X is read as a wildcard."""
+    alt, hit = [], False
+    for c in cs:
+        ids = c.pretext.split('.') if c.pretext else []
+        if c.bare and len(ids) > 1 and ids[-1] in ('x', 'X'):
+            while len(ids) > 1 and ids[-1] in ('x', 'X'):
+                ids.pop()
+            alt.append(Cmp('~', c.comps, '.'.join(ids)))
+            hit = True
+        else:
+            alt.append(c)
+    if hit and expected(alt, vtext) in (got, None):
+        return K_XPRE
+    return None
+
+
+def pi_worker(job):
+    what, ti, k = job
+    core = '%d.%d.%d' % PI_TRIPLES[ti]
+    vers = PI_VERS[ti]
+    a = PI_PRES[k]
+    if what == 'single':
+        reqs = [sp + core + '-' + a for sp in OPSP]
+    else:
+        reqs = ['%s%s-%s, %s%s-%s' % (lo, core, a, hi, core, b) for b in PI_PRES for lo, hi in PI_RANGES]
+    st = dict.fromkeys(('requirements', 'evaluations', 'skipped_unspecified', 'expected_accept', 'expected_reject', 'same_but_for_case_points',
+                        'same_but_for_case_expected_accept', 'bare_requirements_ending_in_x_identifier'), 0)
+    diffs = []
+    for text in reqs:
+        cs = ref_parse_req(text)
+        st['requirements'] += 1
+        if any(c.bare and c.pretext.endswith(('.x', '.X')) for c in cs):
+            st['bare_requirements_ending_in_x_identifier'] += 1
+        try:
+            f = impl_accepts(text)
+        except Exception as e:  # noqa
+            diffs.append((text, vers[0], None, None, 'cargo_parse raised %s: %s' % (type(e).__name__, e)))
+            continue
+        named = [c.pretext for c in cs]
+        for v in vers:
+            e = expected(cs, v)
+            if e is None:
+                st['skipped_unspecified'] += 1
+                continue
+            st['evaluations'] += 1
+            st['expected_accept' if e else 'expected_reject'] += 1
+            vpre = v.split('+', 1)[0].partition('-')[2]
+            if any(p != vpre and p.lower() == vpre.lower() for p in named):
+                st['same_but_for_case_points'] += 1
+                st['same_but_for_case_expected_accept'] += e
+            try:
+                got = f(v)
+            except Exception as ex:  # noqa
+                diffs.append((text, v, None, None, 'predicate raised %s on %s: %s' % (type(ex).__name__, v, ex)))
+                break
+            if got is not e:
+                diffs.append((text, v, got, e, None if got is True or got is False else 'predicate returned non-bool %r on %s' % (got, v)))
+    return job, st, diffs
 
 
 # =====================================================================================================
